@@ -9,6 +9,8 @@ TRUSTED_BASE = [
 
 PROPS = {
     'C12': {
+        'level_text': 'Lean theorems for all byte strings of any length: DecodeBytes∘Encode round trip, injectivity, order preservation, every user key inside the wildcard range, bookkeeping keys outside every expressible range; stated over constants extracted from the current source. Model tied to the code by differential runs of key.Encoder/DecodeBytes/Decoder/iterOptionsForBounds/incrementRightmostByte.',
+        'level_note': "Trusted: Lean kernel, extractor, harness; Pebble's bytewise comparer is assumed (exercised by C01).",
         'modules': ['Regatta.Props.C12'],
         'runs': [
             {'name': 'key', 'harness': 'key', 'driver': 'key', 'quick': {'VERIF_N': 6000}, 'thorough': {'VERIF_N': 400000}},
@@ -18,6 +20,8 @@ PROPS = {
         'trusted': ['modelled, not verified: nothing for the codec itself (pure functions, fully modelled)'],
     },
     'C19': {
+        'level_text': 'Lean theorems: mergeShardInfo is idempotent, commutes and is permutation-invariant under the Raft consistency hypothesis (witnesses show the hypothesis is needed), keeps the max-term leader and max-cci membership, term monotone for all update sequences; lifted to the multi-shard view. Tied to the code by differential runs of mergeShardInfo, shardView.update and the Cluster/delegate handlers.',
+        'level_note': 'Trusted: Lean kernel, harness; memberlist transport and dragonboat event delivery are outside the model.',
         'modules': ['Regatta.Props.C19'],
         'runs': [
             {'name': 'view', 'harness': 'view', 'driver': 'view', 'quick': {'VERIF_N': 1500}, 'thorough': {'VERIF_N': 60000}},
@@ -26,4 +30,63 @@ PROPS = {
         'assumptions': ['order independence needs the Raft guarantees "one leader per term" and "one membership per config-change index" (hypothesis Consistent); without them two explicit counterexamples are proved'],
         'trusted': ['modelled, not verified: memberlist gossip transport, dragonboat event delivery'],
     },
+    'C01': {
+        'level_text': "Refinement theorem in Lean (update_refines): for every well-formed store and every apply batch the transcription of FSM.Update (stored keys, bookkeeping records, lazily indexed batch, all seven command types incl. nested sequences and transactions) succeeds and yields exactly the results, user map, applied and leader index of a plain sorted map applying the entries one after another; reads of every shape refine the sorted map's reads; bookkeeping records untouched by any handler; lifted to all histories by induction. Model tied to the real FSM on Pebble by differential runs incl. GetHash of the raw store.",
+        'level_note': 'Trusted: Lean kernel, harness. Pebble semantics assumed (sorted map, atomic indexed batches). Known finding K2 (range delete with prev_kv reports only the first 4 MiB message) is stated as a theorem about the first message and demonstrated by the size scenario.',
+        'modules': ['Regatta.Props.C01'],
+        'runs': [
+            {'name': 'fsm', 'harness': 'fsm', 'driver': 'fsm', 'quick': {'VERIF_N': 400}, 'thorough': {'VERIF_N': 30000}},
+            {'name': 'fsm-size', 'harness': 'fsm-size', 'driver': 'fsm', 'quick': {'VERIF_N': 6}, 'thorough': {'VERIF_N': 150}},
+        ],
+        'rule': 'random command histories (put, delete, range delete, batches, nested sequences, transactions; hostile keys 00/ff/prefixes/1019..1024-byte ff; all range shapes and flags) applied in random apply batches to the real FSM on Pebble(MemFS), interleaved with reads of every shape, index lookups and GetHash (raw store hash)',
+        'assumptions': ['Pebble = sorted map with atomic (indexed) batches, bytewise comparer, exact-match prefix seek with Split=len', 'API layer lets only non-empty keys through (C16)', 'dragonboat never delivers an empty apply batch; indices < 2^64'],
+        'trusted': ['modelled, not verified: Pebble, protobuf (un)marshalling of commands and results'],
+    },
+    'C02': {
+        'level_text': 'Lean theorems: handleTxn refines if/then/else on the sorted map for every predicate list, both op lists and every prior batch state (c02_txn_refines); predicate semantics (missing key / empty range false, range = all, stored value on the left); read-only path agrees with the write path and leaves the map unchanged; atomic visibility as a corollary of the update refinement. Tied to the code by differential runs with generated transactions at all positions of an apply batch and through FSM.Lookup(*TxnRequest).',
+        'level_note': 'Trusted: Lean kernel, harness; Pebble batch atomicity assumed.',
+        'modules': ['Regatta.Props.C02'],
+        'runs': [
+            {'name': 'fsm', 'harness': 'fsm', 'driver': 'fsm', 'quick': {'VERIF_N': 400}, 'thorough': {'VERIF_N': 30000}},
+        ],
+        'rule': 'histories as for C01; transactions with 0-2 predicates (4 operators, with/without target, single key / range / wildcard), 0-3 operations per branch mixing range reads, puts, (range) deletes on overlapping keys, placed anywhere in an apply batch; read-only transactions through FSM.Lookup(*TxnRequest)',
+        'assumptions': ['as C01; atomic visibility rests on Pebble batch commit atomicity'],
+        'trusted': ['modelled, not verified: Pebble'],
+    },
+    'C03': {
+        'level_text': 'Lean theorems (corollaries of the C01 refinement): applying a log cut into any consecutive non-empty apply batches gives the same content, indices and per-entry results as applying it at once; replicas with the same log prefix agree; the recorded leader index is a function of the log (D3 regression). Tied to the code by applying the same log to three real FSM instances under different batchings with reopen and cross-format snapshot transfer at cut points.',
+        'level_note': 'Trusted: Lean kernel, harness; snapshot transfer is modelled as a copy of the store (tied by GetHash).',
+        'modules': ['Regatta.Props.C03'],
+        'runs': [
+            {'name': 'fsm-twin', 'harness': 'fsm-twin', 'driver': 'fsm', 'quick': {'VERIF_N': 250}, 'thorough': {'VERIF_N': 20000}},
+        ],
+        'rule': 'the same generated log (entries with and without leader index, also decreasing/zero ones) applied to three real FSM instances: one batch, one entry per batch, random cuts with close/reopen and snapshot save/recover into a fresh instance (both formats, cross-format) at cut points; results, full range, both indices and GetHash of every instance compared with the model (hence with each other)',
+        'assumptions': ['dragonboat delivers consecutive entries in order, each once per replica'],
+        'trusted': ['modelled, not verified: Pebble; snapshot save/recover is modelled as a copy of the whole store (tied by the hash comparison)'],
+    },
+    'C09': {
+        'level_text': "Lean theorems about the transcription of iterate's loop, for every pair list, limit, flag kind and position of size cuts: concatenated messages = the first `limit` pairs in order; all messages but the last flagged more; last flagged more iff pairs remain; counts; keys-only / count-only agree with the full read; unary read = first message. Tied to the code by differential runs incl. 0.3-2 MiB values that force size cuts (exact SizeVT arithmetic).",
+        'level_note': "Trusted: Lean kernel, harness; point-in-time view of a Pebble iterator assumed. The bound 'each message below the transport limit' is tied by the size scenarios, not yet a theorem.",
+        'modules': ['Regatta.Props.C09'],
+        'runs': [
+            {'name': 'fsm', 'harness': 'fsm', 'driver': 'fsm', 'quick': {'VERIF_N': 400}, 'thorough': {'VERIF_N': 30000}},
+            {'name': 'fsm-size', 'harness': 'fsm-size', 'driver': 'fsm', 'quick': {'VERIF_N': 8}, 'thorough': {'VERIF_N': 200}},
+        ],
+        'rule': 'range reads (unary, streamed, streamed-and-parked) with limits around the number of matches, all flag variants, and size scenarios with values of 0.3-2 MiB so that the 4 MiB-1 KiB cut falls at varying positions (chunk count, flags, counts and value hashes compared)',
+        'assumptions': ['one Pebble iterator = one point-in-time view'],
+        'trusted': ['modelled, not verified: Pebble iterators; vtproto SizeVT arithmetic is transcribed and tied by the size scenarios'],
+    },
+    'C10': {
+        'level_text': 'Lean theorems: every put/delete/transaction entry reports revision = its log index (also a transaction whose executed branch is empty, D4 regression), revisions strictly increase with indices, responses are those of the sorted map applying the writes in revision order. Tied to the code by differential runs of FSM.Update results.',
+        'level_note': "Trusted: Lean kernel, harness. The read-path half (linearizable vs serializable reads under replica lag) is not yet covered by a theorem or run in this snapshot; it rests on dragonboat's ReadIndex.",
+        'modules': ['Regatta.Props.C10'],
+        'runs': [
+            {'name': 'fsm', 'harness': 'fsm', 'driver': 'fsm', 'quick': {'VERIF_N': 300}, 'thorough': {'VERIF_N': 20000}},
+        ],
+        'rule': 'revisions of every command kind in random apply batches (incl. transactions whose executed branch is empty)',
+        'assumptions': ['linearizable reads rest on dragonboat ReadIndex (SyncRead) correctness'],
+        'trusted': ['modelled, not verified: dragonboat SyncRead/StaleRead'],
+    },
 }
+
+NOT_YET = {}
